@@ -138,6 +138,18 @@ func (e *Engine) evalRule(r *StructRule) []*Obligation {
 		}
 	case "goroutine_roots":
 		return e.ruleGoRoots(r)
+	case "closure_immutable":
+		var out []*Obligation
+		for _, fnk := range pos {
+			fn := e.funcs[r.Pkg+"::"+fnk]
+			if fn == nil {
+				out = append(out, e.structObl(r, fnk, false, "function not found"))
+				continue
+			}
+			ok, msg := closureImmutable(fn)
+			out = append(out, e.structObl(r, fnk, ok, msg))
+		}
+		return out
 	case "recovers":
 		var out []*Obligation
 		for _, fnk := range pos {
@@ -522,4 +534,50 @@ func (e *Engine) ruleGoRoots(r *StructRule) []*Obligation {
 		}
 	}
 	return out
+}
+
+// closureImmutable: the function literal never assigns to a variable it captures, and the
+// variables it captures by reference are not assigned in the enclosing function after the
+// closure has been made.
+func closureImmutable(fn *ssa.Function) (bool, string) {
+	for _, b := range fn.Blocks {
+		for _, in := range b.Instrs {
+			if st, ok := in.(*ssa.Store); ok {
+				if _, isFV := cellRoot(st.Addr).(*ssa.FreeVar); isFV {
+					return false, "stores to captured variable " + st.Addr.Name()
+				}
+				if fv, isFV := st.Addr.(*ssa.FreeVar); isFV {
+					return false, "stores to captured variable " + fv.Name()
+				}
+			}
+		}
+	}
+	par := fn.Parent()
+	if par != nil {
+		for _, b := range par.Blocks {
+			seenMake := false
+			for _, in := range b.Instrs {
+				if mc, ok := in.(*ssa.MakeClosure); ok && mc.Fn == fn {
+					seenMake = true
+					continue
+				}
+				if st, ok := in.(*ssa.Store); ok && seenMake {
+					for _, a := range fn.FreeVars {
+						_ = a
+					}
+					// a store to a cell captured by reference after the closure exists
+					for i := range fn.FreeVars {
+						for _, b2 := range par.Blocks {
+							for _, in2 := range b2.Instrs {
+								if mc, ok := in2.(*ssa.MakeClosure); ok && mc.Fn == fn && i < len(mc.Bindings) && mc.Bindings[i] == st.Addr {
+									return false, "the enclosing function assigns a captured variable after making the closure"
+								}
+							}
+						}
+					}
+				}
+			}
+		}
+	}
+	return true, fmt.Sprintf("%d captured variables, none assigned by the literal or after it is made", len(fn.FreeVars))
 }
